@@ -442,10 +442,11 @@ fn upgrade_chains(out: &mut impl Write, st: &mut Stats, rng: &mut Rng, chains: u
     for c in 0..chains {
         let mut decls: Vec<Decl> = vec![];
         for n in names.iter().take(rng.range(1, 4) as usize) {
-            let t = gen_type(rng, 2);
+            let t = if rng.chance(1, 2) { gen_struct_field(rng, 2) } else { gen_type(rng, 2) };
             decls.push(Decl { name: n.to_string(), t, unique: rng.chance(1, 8) });
         }
         let mut cur = build_schema(&decls, 1);
+        let mut fresh = 0usize;
         // name -> every idx it ever had; retired = (idx, name) no longer declared
         let mut ever: BTreeMap<usize, String> = cur.iter().map(|e| (e.idx(), e.name().to_string())).collect();
         // a document written under the first schema
@@ -488,16 +489,11 @@ fn upgrade_chains(out: &mut impl Write, st: &mut Stats, rng: &mut Rng, chains: u
                         if !t.is_compatible_upgrade_of(&nd[i].t) { nd[i].t = t; illegal = Some("incompatible type change"); }
                     }
                 }
-                8 => { // nested struct gains an optional key / loses a key
+                8 | 9 => { // nested structs gain an optional key / lose a key, at any depth of any field
                     for d in nd.iter_mut() {
-                        if let FieldType::Map(m) = &mut d.t {
-                            if !m.is_empty() && as_wildcard_map(m).is_none() {
-                                if rng.chance(1, 2) && m.len() > 1 { let k = m.keys().next().unwrap().clone(); m.remove(&k); }
-                                else { m.insert(FieldKey::Text("added".into()), FieldType::Option(Box::new(FieldType::Text))); }
-                                if as_wildcard_map(m).is_some() { m.insert(FieldKey::Text("added2".into()), FieldType::Option(Box::new(FieldType::Text))); }
-                                break;
-                            }
-                        }
+                        let mut changed = false;
+                        let t = evolve(rng, &d.t, &mut fresh, &mut changed);
+                        if changed && t.is_compatible_upgrade_of(&d.t) { d.t = t; }
                     }
                 }
                 _ => {} // version bump only
@@ -555,8 +551,8 @@ fn upgrade_chains(out: &mut impl Write, st: &mut Stats, rng: &mut Rng, chains: u
                             let survives = new.get_field(name).is_some() && ever.iter().filter(|(_, n)| *n == name).count() == 1;
                             if !survives { continue; }
                             let got = d.get_field(name);
-                            let mut expect = v.clone();
-                            new.get_field(name).unwrap().r#type().prune_undeclared(&mut expect);
+                            // independent of the implementation's prune_undeclared
+                            let expect = project(new.get_field(name).unwrap().r#type(), v);
                             if !got.map(|g| same(g, &expect)).unwrap_or(false) {
                                 st.failures.push(json!({"class": "surviving-field-changed", "what": format!("field {name:?} written under version {wver} changed under version {ver}"), "written": format!("{v:?}"), "read": format!("{got:?}")}));
                             }
@@ -571,7 +567,127 @@ fn upgrade_chains(out: &mut impl Write, st: &mut Stats, rng: &mut Rng, chains: u
     }
 }
 
+/// One field, one permitted type evolution: a document written under the old type is read under the new one.
+fn evolutions(out: &mut impl Write, st: &mut Stats, rng: &mut Rng, n: usize, model_every: usize) {
+    let model_every = model_every.max(1);
+    let mut done = 0usize;
+    let mut tries = 0usize;
+    while done < n && tries < n * 10 {
+        tries += 1;
+        let t_old = gen_struct_field(rng, 1 + tries % 3);
+        let mut fresh = 0usize;
+        let mut changed = false;
+        let t_new = evolve(rng, &t_old, &mut fresh, &mut changed);
+        if !changed || !t_new.is_compatible_upgrade_of(&t_old) { continue; }
+        let v = gen_value(rng, &t_old);
+        let s_old = schema_of(&t_old);
+        let mut d = Document::new(s_old.clone());
+        d.set_id(1);
+        if d.set_field("f", v.clone()).is_err() { st.fail("valid-rejected", "a canonical valid value is rejected by set_field".into(), &t_old, &v, json!({})); continue; }
+        let Ok(bytes) = cbor2::to_vec(&d) else { continue };
+        let mut b = Schema::builder();
+        b.with_version(1);
+        b.add_field(FieldEntry::new("f".into(), t_new.clone()).unwrap()).unwrap();
+        let mut s_new = b.build().unwrap();
+        let fresh_new = s_new.clone();
+        st.evaluations += 1;
+        done += 1;
+        let res = s_new.upgrade_with(&s_old);
+        let model = done % model_every == 0;
+        if model { model_row(out, "up", tup(vec![schema_term(&fresh_new), schema_term(&s_old)]), opt_term(res.as_ref().ok().map(|_| schema_term(&s_new)))); }
+        if let Err(e) = res {
+            st.failures.push(json!({"class": "legal-upgrade-refused", "what": format!("upgrade_with refuses a nested key gain/loss: {e}"), "old": format!("{t_old:?}"), "new": format!("{t_new:?}")}));
+            continue;
+        }
+        let elems = match &v { FieldValue::Array(a) => a.len(), FieldValue::Map(m) => m.len(), _ => 1 };
+        st.bump(if elems >= 2 { "evolution_docs_with_2plus_elements" } else { "evolution_docs_small" });
+        let owned: DocumentOwned = cbor2::from_reader(&bytes[..]).unwrap();
+        let raw = owned.fields.get(&1).cloned().unwrap_or(FieldValue::Null);
+        let expect = project(&t_new, &v);
+        let s_new = Arc::new(s_new);
+        let r = Document::try_from_doc(s_new.clone(), owned.clone());
+        match &r {
+            Err(e) => st.fail("old-document-unreadable", format!("document written under the old nested type is unreadable after a permitted key gain/loss: {e}"), &t_new, &v,
+                              json!({"old_type": format!("{t_old:?}"), "new_type": format!("{t_new:?}"), "written": format!("{v:?}")})),
+            Ok(d2) => {
+                let got = d2.get_field("f");
+                if !got.map(|g| same(g, &expect)).unwrap_or(false) {
+                    st.fail("surviving-field-changed", "surviving members of a nested struct changed after a permitted key gain/loss".into(), &t_new, &v,
+                            json!({"old_type": format!("{t_old:?}"), "expected": format!("{expect:?}"), "read": format!("{got:?}")}));
+                }
+            }
+        }
+        if model {
+            // the stored (schema-less) shape under the new type: prune / normalize / validate compared with the model
+            run_pair(out, st, &t_new, &raw, false, None, true);
+            let fields: Vec<Value> = owned.fields.iter().map(|(i, v)| tup(vec![json!(i), fv_term(v)])).collect();
+            let mut all: Vec<&FieldValue> = owned.fields.values().collect();
+            let rd = r.as_ref().ok().map(|d| d.fields().clone());
+            if let Some(rd) = &rd { all.extend(rd.values()); }
+            let obs = opt_term(rd.as_ref().map(|f| Value::Array(f.iter().map(|(i, v)| tup(vec![json!(i), fv_term(v)])).collect())));
+            model_row(out, "doc", tup(vec![schema_term(&s_new), Value::Array(fields), float_table(&all)]), obs);
+        }
+    }
+    st.dist.insert("evolutions".into(), done as u64);
+}
+
+/// nested key removed, then re-added with another type: the stale entry of a never-rewritten document comes back
+fn probe_readd() {
+    let item = |note: Option<FieldType>| {
+        let mut m = BTreeMap::from([(FieldKey::Text("sku".into()), FieldType::Text)]);
+        if let Some(t) = note { m.insert(FieldKey::Text("note".into()), FieldType::Option(Box::new(t))); }
+        FieldType::Array(vec![FieldType::Map(m)])
+    };
+    let mk = |t: FieldType, ver: u64| { let mut b = Schema::builder(); b.with_version(ver); b.add_field(FieldEntry::new("items".into(), t).unwrap()).unwrap(); b.build().unwrap() };
+    let v1 = mk(item(Some(FieldType::Text)), 1);
+    let mut v2 = mk(item(None), 2);
+    println!("v2.upgrade_with(v1): {:?}", v2.upgrade_with(&v1).map_err(|e| e.to_string()));
+    for (name, t3) in [("I64", FieldType::I64), ("Text", FieldType::Text)] {
+        let mut v3 = mk(item(Some(t3)), 3);
+        println!("v3[{name}].upgrade_with(v2): {:?}", v3.upgrade_with(&v2).map_err(|e| e.to_string()));
+        let mut d = Document::new(Arc::new(v1.clone()));
+        d.set_id(1);
+        d.set_field("items", FieldValue::Array(vec![FieldValue::Map(BTreeMap::from([(FieldKey::Text("note".into()), FieldValue::Text("fragile".into())), (FieldKey::Text("sku".into()), FieldValue::Text("a-1".into()))]))])).unwrap();
+        let bytes = cbor2::to_vec(&d).unwrap();
+        let owned: DocumentOwned = cbor2::from_reader(&bytes[..]).unwrap();
+        println!("  read v1 doc under v2: {:?}", Document::try_from_doc(Arc::new(v2.clone()), owned.clone()).map(|d| format!("{:?}", d.get_field("items"))).map_err(|e| e.to_string()));
+        println!("  read v1 doc under v3[{name}]: {:?}", Document::try_from_doc(Arc::new(v3.clone()), owned).map(|d| format!("{:?}", d.get_field("items"))).map_err(|e| e.to_string()));
+    }
+}
+
+/// Known class nested-key-readd-stale: nested keys have no retirement watermark (top-level fields do), so a key
+/// removed from a nested struct and later re-added with another type meets the stale entry of a document that was
+/// written before the removal and never rewritten.  Each step is a permitted upgrade.
+fn nested_readd_witness(st: &mut Stats) {
+    let item = |note: Option<FieldType>| {
+        let mut m = BTreeMap::from([(FieldKey::Text("sku".into()), FieldType::Text)]);
+        if let Some(t) = note { m.insert(FieldKey::Text("note".into()), FieldType::Option(Box::new(t))); }
+        FieldType::Array(vec![FieldType::Map(m)])
+    };
+    let mk = |t: FieldType, ver: u64| { let mut b = Schema::builder(); b.with_version(ver); b.add_field(FieldEntry::new("items".into(), t).unwrap()).unwrap(); b.build().unwrap() };
+    let v1 = mk(item(Some(FieldType::Text)), 1);
+    let mut v2 = mk(item(None), 2);
+    let mut v3 = mk(item(Some(FieldType::I64)), 3);
+    if v2.upgrade_with(&v1).is_err() || v3.upgrade_with(&v2).is_err() { return; }
+    let written = FieldValue::Array(vec![FieldValue::Map(BTreeMap::from([
+        (FieldKey::Text("note".into()), FieldValue::Text("fragile".into())), (FieldKey::Text("sku".into()), FieldValue::Text("a-1".into()))]))]);
+    let mut d = Document::new(Arc::new(v1.clone()));
+    d.set_id(1);
+    if d.set_field("items", written.clone()).is_err() { return; }
+    let Ok(bytes) = cbor2::to_vec(&d) else { return };
+    let owned: DocumentOwned = cbor2::from_reader(&bytes[..]).unwrap();
+    st.evaluations += 1;
+    st.bump("nested_key_readd_witness");
+    if Document::try_from_doc(Arc::new(v2), owned.clone()).is_err() { return; }
+    if let Err(e) = Document::try_from_doc(Arc::new(v3), owned) {
+        st.failures.push(json!({"class": "nested-key-readd-stale",
+            "what": format!("document written under v1 unreadable under v3 after two permitted upgrades (nested key removed, then re-added with another type): {e}"),
+            "v1": format!("{:?}", item(Some(FieldType::Text))), "v2": format!("{:?}", item(None)), "v3": format!("{:?}", item(Some(FieldType::I64))), "written": format!("{written:?}")}));
+    }
+}
+
 fn probe() {
+    probe_readd();
     let z = bf16::from_f32(1.0);
     let show = |t: FieldType, v: FieldValue| {
         let wr = write_read(&t, &v);
@@ -610,6 +726,8 @@ fn main() {
         stream_pairs(&mut out, &mut st, &mut rng, num("--valid", 3000), num("--mutations", 3000), num("--wild", 1000), num("--model-every", 4));
         let fl = float_hypotheses(&mut out, &mut st, &mut rng, num("--floats", 100000));
         upgrade_chains(&mut out, &mut st, &mut rng, num("--chains", 300), num("--chain-model-every", 3));
+        evolutions(&mut out, &mut st, &mut rng, num("--evolutions", 1500), num("--evolution-model-every", 4));
+        nested_readd_witness(&mut st);
         let bt = battery::run(&mut st_failures(&mut st));
         (fl, bt)
     }));
